@@ -4,11 +4,15 @@ import QuinnModel.Props.C03
 import QuinnModel.Props.C04
 import QuinnModel.Props.C07
 import QuinnModel.Props.C08
+import QuinnModel.Props.C09
 import QuinnModel.Props.C10
 import QuinnModel.Props.C10_ack
 import QuinnModel.Props.C10_frames
 import QuinnModel.Props.C10_header
 import QuinnModel.Props.C10_tparams
 import QuinnModel.Props.C12
+import QuinnModel.Props.C13
 import QuinnModel.Props.C14
+import QuinnModel.Props.C15
+import QuinnModel.Props.C16
 import QuinnModel.Props.C20
